@@ -213,6 +213,9 @@ class DictField(Field):
 
     def __setdefault__(self, cfg: Config) -> None:
         default = self.default
+        if default is not None and not isinstance(default, dict):
+            # a default given as a sequence of pairs is a dict like any other: its entries are validated too
+            default = dict(default)
         if isinstance(default, dict) and self._use_proxy:
             default = DictProxy(cfg, self, default)
         elif default is not None:
